@@ -4,8 +4,8 @@ package main
 
 import (
 	"fmt"
+	"math/big"
 	"net"
-	"go/constant"
 	"go/types"
 	"sort"
 	"strings"
@@ -365,15 +365,7 @@ func intBits(t types.Type) (bits int, signed bool) {
 }
 
 func pow2(n int) string {
-	c := constant.Shift(constant.MakeInt64(1), 6 /*token.SHL*/, uint(n))
-	_ = c
-	// avoid token import: compute via big string
-	x := constant.MakeInt64(1)
-	two := constant.MakeInt64(2)
-	for i := 0; i < n; i++ {
-		x = constant.BinaryOp(x, 14 /*token.MUL*/, two)
-	}
-	return x.ExactString()
+	return new(big.Int).Lsh(big.NewInt(1), uint(n)).String()
 }
 
 func intLit(s string) string {
